@@ -120,6 +120,9 @@ class HistMachine(Machine):
             k = rng.choice(pool)
             if k == "fill":
                 ops.append(["fill", gen_entries(rng, cur, maxent)])
+                if len(ops) % 6 == 0:
+                    # a HistFit is built from the container in mid-history (decided without a further draw); the history of the user's container goes on
+                    ops.append(["fit"])
             elif k == "fill_scalar":
                 ops.append(["fill_scalar", float(rng.choice(cur + LATTICE))])
             elif k == "read":
@@ -210,6 +213,21 @@ class HistMachine(Machine):
                     res.probe("entry_exactly_on_edge")
                 n_mut += 1
                 mut_pending = True
+            elif k == "fit":
+                if manual is not None or not entries:
+                    continue
+                try:
+                    from kafe2 import HistFit
+                    hf = HistFit(h)
+                    got = np.array(hf.data, dtype=float)
+                except Exception as e:  # noqa  (whether a fit can be built from this container is not C12's question)
+                    res.bump("fit_from_container_raised_" + type(e).__name__)
+                    continue
+                res.bump("op_fit_from_container")
+                exp = np.array(ref_counts(edges, entries)[1], dtype=float)
+                if got.shape != exp.shape or not np.array_equal(got, exp):
+                    viol("counts", "fit.data", "HistFit built from the container reports data %s, half-open counting of the %d entries filled so far gives %s" % (
+                        got.tolist(), len(entries), exp.tolist()), step, exp, got)
             elif k == "fill_scalar":
                 if manual is not None:
                     continue
